@@ -10,6 +10,7 @@ import (
 	"math"
 	"math/bits"
 	"strings"
+	"sync"
 )
 
 type Sort uint8
@@ -164,8 +165,57 @@ func sext(v uint64, w uint) int64 {
 func mkConst(s Sort, k uint64) *Term {
 	if s != SBool {
 		k &= mask(s.width())
+	} else if k != 0 {
+		return tTrue
+	} else {
+		return tFalse
 	}
-	return &Term{op: OpConst, sort: s, k: k}
+	return intern(&Term{op: OpConst, sort: s, k: k})
+}
+
+// ---- hash-consing (an optimisation only: structurally equal terms become
+// pointer-equal, so the local simplifications and the solver see sharing) ----
+
+type tkey struct {
+	op         Op
+	sort       Sort
+	k          uint64
+	p1, p2     int
+	a0, a1, a2 *Term
+	name       string
+}
+
+var (
+	internMu  sync.Mutex
+	internTab = make(map[tkey]*Term, 1<<16)
+)
+
+func intern(t *Term) *Term {
+	if len(t.a) > 3 {
+		return t
+	}
+	k := tkey{op: t.op, sort: t.sort, k: t.k, p1: t.p1, p2: t.p2, name: t.name}
+	switch len(t.a) {
+	case 3:
+		k.a2 = t.a[2]
+		fallthrough
+	case 2:
+		k.a1 = t.a[1]
+		fallthrough
+	case 1:
+		k.a0 = t.a[0]
+	}
+	internMu.Lock()
+	if old, ok := internTab[k]; ok {
+		internMu.Unlock()
+		return old
+	}
+	if len(internTab) > 1<<21 {
+		internTab = make(map[tkey]*Term, 1<<16)
+	}
+	internTab[k] = t
+	internMu.Unlock()
+	return t
 }
 
 var (
@@ -192,7 +242,7 @@ func mk(op Op, s Sort, a ...*Term) *Term {
 			c = math.MaxInt32
 		}
 	}
-	return &Term{op: op, sort: s, a: a, cnt: c}
+	return intern(&Term{op: op, sort: s, a: a, cnt: c})
 }
 
 // ---- boolean constructors ----
@@ -472,9 +522,7 @@ func tExtract(a *Term, hi, lo int) *Term {
 		}
 		return tSignExt(in, bvSort(w))
 	}
-	t := mk(OpExtract, bvSort(w), a)
-	t.p1, t.p2 = hi, lo
-	return t
+	return intern(&Term{op: OpExtract, sort: bvSort(w), a: []*Term{a}, p1: hi, p2: lo, cnt: a.cnt + 1})
 }
 
 func tZeroExt(a *Term, to Sort) *Term {
@@ -599,12 +647,26 @@ func tFCmp(op Op, a, b *Term) *Term {
 			return mkBool(x == y)
 		}
 	}
+	if a == b {
+		switch op {
+		case OpFLt:
+			return tFalse
+		case OpFLe, OpFEq:
+			return tNot(tFIsNaN(a))
+		}
+	}
 	return mk(op, SBool, a, b)
 }
 
 func tFIsNaN(a *Term) *Term {
 	if a.isConst() {
 		return mkBool(math.IsNaN(fval(a)))
+	}
+	switch a.op {
+	case OpSToF, OpUToF:
+		return tFalse
+	case OpFToF, OpFNeg:
+		return tFIsNaN(a.a[0])
 	}
 	return mk(OpFIsNaN, SBool, a)
 }
